@@ -7,6 +7,7 @@ import (
 	"reflect"
 	"sort"
 	"sync"
+	"time"
 
 	"github.com/IBM/sarama"
 
@@ -204,3 +205,11 @@ func (c *KafkaCluster) FetchMetadata() bool { return c.m.VerifFetchMetadata() }
 
 // SetFetchMetadata sets the flag (metadata ticker).
 func (c *KafkaCluster) SetFetchMetadata(v bool) { c.m.VerifSetFetchMetadata(v) }
+
+// StartMainLoop starts the module's real mainLoop against the fake Kafka on caller-owned ticker channels.
+func (c *KafkaCluster) StartMainLoop(k *FakeKafka, offsetC, metadataC, reaperC <-chan time.Time) {
+	c.m.VerifStartMainLoop(&fakeClient{k: k}, offsetC, metadataC, reaperC)
+}
+
+// Stop is the module's real Stop (stops the tickers, closes the quit channel, waits for the loop).
+func (c *KafkaCluster) Stop() error { return c.m.VerifStop() }
